@@ -103,6 +103,7 @@ Definition code (s : st) : positive :=
   let a := mix a 8 (N.of_nat (hooks s)) in
   let a := mix a 16 (N.of_nat (late s)) in
   let a := mix a 8 (N.of_nat (dangling s)) in
+  let a := mix a 4 (N.of_nat (lost s)) in
   N.succ_pos a.
 Local Close Scope N_scope.
 
@@ -209,7 +210,8 @@ Definition P_common (p : params) (s : st) : bool :=
   (negb (quiescent p s) || final_ok s) &&                   (* exactly one completion at quiescence, no deadlock *)
   (negb (freed s) || cb_torn_down (cb s)) &&                (* callback deregistered / finished before completion *)
   (match completions s with ODone :: _ => src s | _ => true end) &&   (* done only after a stop request *)
-  (fx p || negb (b_sd s)).
+  (fx p || negb (b_sd s)) &&
+  Nat.eqb (lost s) 0.                                       (* try_complete never returns false *)
 
 (* quiet_after_completion *)
 Definition P_quiet (s : st) : bool := Nat.eqb (late s) 0.
@@ -275,9 +277,11 @@ Lemma P_common_spec p s : P_common p s = true ->
   (quiescent p s = true -> final_ok s = true) /\
   (freed s = true -> cb_torn_down (cb s) = true) /\
   (forall r, completions s = ODone :: r -> src s = true) /\
-  (fx p = false -> b_sd s = false).
+  (fx p = false -> b_sd s = false) /\
+  lost s = 0.
 Proof.
   unfold P_common. intros H.
+  apply andb_true_iff in H as [H H9]. apply Nat.eqb_eq in H9.
   apply andb_true_iff in H as [H H8]. apply andb_true_iff in H as [H H7].
   apply andb_true_iff in H as [H H6]. apply andb_true_iff in H as [H H5].
   apply andb_true_iff in H as [H H4]. apply andb_true_iff in H as [H H3].
@@ -333,6 +337,13 @@ Section Main.
     destruct (P_common_spec p s P_common_s) as (_ & _ & _ & H4 & _ & H6 & H7 & _).
     split; [exact H7|]. split; [|exact H4].
     intros Hf. specialize (H6 Hf). split; intros Hc; rewrite Hc in H6; discriminate H6.
+  Qed.
+
+  (* under the contract of the nested operation (completion and stop() arbitrate on the slot
+     first) the `completed` bit is never contended: no try_complete call returns false *)
+  Theorem try_complete_never_loses : lost s = 0.
+  Proof.
+    destruct (P_common_spec p s P_common_s) as (_ & _ & _ & _ & _ & _ & _ & _ & H9). exact H9.
   Qed.
 
   (* quiet_after_completion: after the receiver has been completed no thread accesses a member
